@@ -1094,6 +1094,7 @@ func (w *world) session(sim *simrt.Sim, first bool) {
 	args := argsOf(p.Set, w.dir)
 	var serveErr error
 	served := false
+	abandoned := 0
 	var swg simrt.WaitGroup
 	swg.Add(1)
 	sim.GoNamed("serve", "go", func() {
@@ -1103,6 +1104,8 @@ func (w *world) session(sim *simrt.Sim, first bool) {
 		cmd.SetOut(io.Discard)
 		cmd.SetErr(io.Discard)
 		serveErr = cmd.ExecuteContext(context.Background())
+		// the command returned: the process exits at this instant, whatever is still being handled is cut off
+		abandoned = simrt.InFlight()
 		served = true
 	})
 	// wait for the listener (the command line may also be refused)
@@ -1123,6 +1126,9 @@ func (w *world) session(sim *simrt.Sim, first bool) {
 		}
 		killed = true
 		w.stopping = true
+		if simrt.InFlight() > 0 {
+			w.out.Probes["signal-with-request-in-flight"]++
+		}
 		sig := os.Signal(syscall.SIGTERM)
 		if p.Sig == "int" {
 			sig = os.Interrupt
@@ -1186,8 +1192,7 @@ func (w *world) session(sim *simrt.Sim, first bool) {
 	})
 	swg.Wait()
 	wd.Stop()
-	if n := simrt.InFlight(); n > 0 {
-		// the command returned: the process exits now, whatever is still being handled is cut off
+	if n := abandoned; n > 0 {
 		w.viol("term.request-abandoned", "serve returned with requests in flight", fmt.Sprintf("the serve command returned while %d request(s) were still being handled: the process exits and cuts them off (an upload leaves its file behind)", n))
 	}
 	if serveErr != nil {
